@@ -149,7 +149,8 @@ private theorem wrapInline_cL' (frags : List Frag) (vars : Vars) (w : String →
 
 /-- **wrap_inline_in_fragment_ge** — wrapping a block of selections of a fragment DEFINITION (at the top of its body
     or at any nesting level of it) in an inline fragment never lowers the depth the rule measures for ANY operation of
-    the document (it leaves it unchanged, and it is the specified depth in both documents). -/
+    the document (it leaves it unchanged, and it is the specified depth in both documents).
+    SUPERSEDED VARIANT: about `depthFixed` (strict variables); for the measure of the rule the tree runs see `wrap_inline_in_fragment_final`. -/
 theorem wrap_inline_in_fragment_ge (doc doc' : Doc) (vars : Vars) (hv : Valid doc vars) (hv' : Valid doc' vars)
     (pre post : List Frag) (f : Frag) (sels' : List Sel) (hw : WrapInline f.sels sels')
     (hfr : doc.frags = pre ++ [f] ++ post) (hfr' : doc'.frags = pre ++ [⟨f.name, sels'⟩] ++ post)
@@ -211,7 +212,8 @@ private theorem wrapSpread_cL_ctx (frags : List Frag) (vars : Vars) (w : String 
 /-- **wrap_spread_in_fragment_ge** — moving a block of selections of a fragment DEFINITION (at any nesting level of its
     body) into a new named fragment `nm` and spreading it there never lowers the depth the rule measures for ANY
     operation of the document (it leaves it unchanged = the specified depth in both documents).
-    `nm` is fresh: not defined in `doc` and not spread in the operation or in any fragment body of `doc`. -/
+    `nm` is fresh: not defined in `doc` and not spread in the operation or in any fragment body of `doc`.
+    SUPERSEDED VARIANT: about `depthFixed` (strict variables); for the measure of the rule the tree runs see `wrap_spread_in_fragment_final`. -/
 theorem wrap_spread_in_fragment_ge (doc doc' : Doc) (vars : Vars) (hv : Valid doc vars) (hv' : Valid doc' vars)
     (pre post : List Frag) (f : Frag) (nm : String) (body sels' : List Sel) (hw : WrapSpread nm body f.sels sels')
     (hfr : doc.frags = pre ++ [f] ++ post)
